@@ -814,6 +814,19 @@ class Gen:
                              "cb": self.p("cb"), "info": False, "opts": opts["opts"]})
             self.record_results(0, outs, opts, False, deps_ok=not ins)
         gin = self.st([self.in_field(), self.field("G", u(sl), {"group": g})])
+        if r.random() < 0.35:
+            # a decorator of the group, which itself fails (error, panic or a missing dependency) or succeeds
+            how = r.choice(["err", "panic", "missing", "ok"])
+            dins = [gin] if r.random() < 0.7 else []
+            if how == "missing":
+                (mt, mn) = self.fresh_key()
+                dins.append(self.single_in(mt, mn))
+            dfn = self.new_fn(dins, [self.st([self.out_field(), self.field("G", u(sl), {"group": g})]), u(0)])
+            if how in ("err", "panic"):
+                self.script[str(dfn)] = [{"k": how, "len": 1, "dt": 0, "eslot": 0}] * 2
+            else:
+                self.script.pop(str(dfn), None)
+            self.ops.append({"op": "decorate", "scope": 0, "fn": dfn, "cb": self.p("cb"), "info": False})
         inv = self.new_fn([gin] if r.random() < 0.7 else [gin, u(r.choice(PT))], [])
         self.invokers.append((inv, 0))
         self.ops.append({"op": "invoke", "scope": r.choice([0, 0, r.randrange(0, self.nscopes)]), "fn": inv, "info": False})
